@@ -922,6 +922,8 @@ def judge_cors(ops, impl, part):
         r, f, method, path = c
         cfg = r.cors or dict(origins=[], allow=[], exposed=[], maxage=0, cred=False)
         hdrs = {k.decode('latin-1'): v.decode('latin-1') for k, v in decM(toks[5])}
+        if any(ord(c) >= 0x80 for c in hdrs.get('Access-Control-Request-Headers', '')) or any(any(b >= 0x80 for b in h) for h in cfg.get('allow', []) if isinstance(h, (bytes, bytearray))):
+            continue      # strings.EqualFold / TrimSpace are Unicode-aware; this judge (like the model) reads ASCII
         got = {k: v[0] for k, v in dec_hdr(f.get('hdr', '%-')).items()}
         vary = dec_hdr(f.get('hdr', '%-')).get('Vary', [])
         base = f['base']
